@@ -4,17 +4,20 @@ i = s.index('### 12.5 Which check catches which seeded change')
 table = open('/tmp/seedtable.md').read()
 new = '''### 12.5 Which check catches which seeded change
 
-240 changes were written by sub-agents that saw only the text of one property and their own scratch worktree: two per property in each of six rounds
-(A, B; C, D; E, F; G, H; I, J; K, L). From the second round on the agents were additionally told one line about each earlier change for their property so as not to repeat it; in the fourth round the two
+280 changes were written by sub-agents that saw only the text of one property and their own scratch worktree: two per property in each of seven rounds
+(A, B; C, D; E, F; G, H; I, J; K, L; M, N). From the second round on the agents were additionally told one line about each earlier change for their property so as not to repeat it; in the fourth round the two
 changes had prescribed styles: G a concurrency or resource-lifetime slip (a lock moved, a goroutine added, pooling or caching, a timer, a finalizer, a deferred clean-up in the wrong place),
 H a slip in glue or wiring (the main program's flags and the way it builds its components, a constructor's defaults, a small helper, a library option, an error translated on its way up).
 In the fifth round: I a slip on an error path or at a boundary (something failing half-way, the first / last / empty / maximal element, two things ending at the same moment),
 J a well-meant hardening, limit or normalisation that bites legitimate use (a timeout, a size cap, stricter validation, rate limiting, trimming, de-duplication).
 In the sixth round: K a slip that rests on a Go language or standard-library pitfall (shadowing with `:=`, slice aliasing, `copy`'s contract, a typed nil in an interface, `defer` in a loop, `http.Error` without `return`, `TrimLeft`'s cutset, integer overflow of the exit status),
 L a small feature addition (a flag, an option, an endpoint, an exported function) that is off by default.
-The checks as they stood missed about a third of the changes of the early rounds at first sight (11 of 38 in round three) and about half of rounds four and five (22 of 42, 21 of 40): prescribing a *style* the checks had not met yet is what kept finding blind spots. Every miss led to the strengthening listed below; with the machinery as committed every one of the 240 is reported except six of the sixth round's feature additions (C02-L `-takeover`, C03-L `-max-output-chunk`, C05-L an environment variable switching on per-SNI certificates,
+In the seventh round: M a change whose misbehaviour depends on the *environment* the program runs in (TERM, NO_COLOR, the locale, the current directory, the number of processors, which interfaces carry addresses, whether the host has IPv6,
+a system clock that is set, symbolic links, a directory that takes no files), N a behaviour-preserving-looking *refactor* that moves or reorders something (a check moved past an unlock or above another check, a block moved below the point where the terminal is raw, a loop replaced by `io.Copy`, an errgroup by a `WaitGroup`, helpers extracted that each take the lock themselves).
+The checks as they stood missed about a third of the changes of the early rounds at first sight (11 of 38 in round three) and about half of rounds four and five (22 of 42, 21 of 40): prescribing a *style* the checks had not met yet is what kept finding blind spots. Every miss led to the strengthening listed below; with the machinery as committed every one of the 280 is reported except six of the sixth round's feature additions (C02-L `-takeover`, C03-L `-max-output-chunk`, C05-L an environment variable switching on per-SNI certificates,
 C14-L `ConnectTimeout`, C16-L `-strip-comments`, C19-L `-line-buffer`): each breaks its property only when the new option is switched on, and a check built for the pinned interface has no way of knowing that an option exists, let alone what a legitimate use of it is.
 The other fourteen feature additions of that round break something with the feature *unused* and are caught. Sixth round at first sight: 19 of 40 missed or answered with a broken check (exit 2) instead of a verdict.
+Seventh round at first sight: of the 20 refactors 18 were reported at once (one answered with exit 2, one missed), of the 20 environment-dependent changes 8 - the checks had, until then, run everything in the one environment they were started in.
 Each change was confirmed here
 (`tools/seedconfirm.sh`: builds, whole existing suite passes, the agent's demonstration fails with the change and passes without) and kept under
 `seeded/<id>/` (`patch.diff`, demonstration, `NOTES.agent.md`, `confirm.log`, `check.out`, `meta.json`). The checks were run against each with
@@ -128,6 +131,19 @@ What each missed (or nearly missed) change led to:
 | C18-K (compaction and quote-escaping merged into one in-place pass) / C18-L (`strings.Fields` + join) | missed | duplicates that contain a quote in the row-set menu; runs of blanks, NBSP and CR inside TABDOC text |
 | C19-K (mute redesigned around `time.After` in the output loop) | exit 2 (overlay helper read removed fields; scenario needs a timer goroutine) | private state looked up by name; lock scenarios that cannot be set up on a Shell are skipped and counted |
 | C20-L (`opshell.New` grew a parameter; clean-up waits for `Do`) | exit 2 (harness did not build) | the repository's constructors are called through reflection (`harness/rcall`): new parameters get zero values |
+| C01-M (a tear-down that has lasted 30 s by the *wall* clock is given up on) | missed | virtual-clock scenario at broker level: input ended, output stream held before its release by a log sink that blocks; attempts at once, 31 s and 20 min later, after the system clock was set forward and back: refused throughout |
+| C01-N (`proxyOut`'s loop replaced by `io.Copy` in a goroutine that outlives it) | exit 2 ("harness nondeterminism": the program now flips a coin) | profile `c01-late-chunk`: a Read that is pending when the Connect call returns stays pending (as net/http's does) and is handed one more chunk - nothing of it may be shown; a profile that cannot be explored no longer hides another profile's violation |
+| C02-M (bracketed paste requested unless TERM is dumb; lines made of pasted text dropped) / C10-M (NO_COLOR / TERM=dumb path formats twice) / C20-M (`Escape = nil` on dumb terminals) | missed | the terminal seam and the real binary also with TERM xterm-256color / screen / vt100 / dumb / unset and NO_COLOR; the fake terminal brackets pastes when asked to |
+| C03-M (an incomplete UTF-8 sequence at the end of a chunk is held back when the locale says UTF-8, and never flushed) / C14-M (`ToValidUTF8` per chunk in a UTF-8 locale) / C18-M (invalid UTF-8 "scrubbed" after quoting, in a UTF-8 locale) | missed | workers started with LANG / LC_ALL naming UTF-8: chunks that end inside a character (C03), binary output and two-byte characters across every read boundary (C14), lead bytes before quotes and hidden commands (C18) |
+| C04-M (callback help recomputed from the live interface list when a shell dies; failure ends the server) | missed | the real binary listening on every address in a private network namespace (`unshare -n`) whose interface loses its address while a shell is attached, gets it back, is joined by another, is removed: six shells in series |
+| C06-N (per-call marker becomes a counter read back after the unlock) | missed in the quick tier (the gated exploration starts calls one by one) | the free-running `-race` pass, so far thorough only, is part of C06's quick tier |
+| C12-M (a second IPv6 socket for wildcard addresses that `Close` forgets) | missed | after the ready notice the process holds no listening TCP socket at all (`/proc/<pid>/fd` against `/proc/<pid>/net/tcp*`); `-listen-address` `0.0.0.0:0`, `:0`, `[::]:0`, `[::1]:0` |
+| C13-M (a fingerprint that names a file in the current directory is read from it) | missed | the check runs in a directory holding a file named like every fingerprint string in use, each containing another key's pin |
+| C15-M (block-wise parallel encoder whose semaphore has capacity GOMAXPROCS-1) | missed | the codec in a child process with `GOMAXPROCS=1` (and 2), sizes around every block boundary up to 1 MiB |
+| C16-M (sources run through `EvalSymlinks`: the function is named after the link's target) | missed | scripts reached through links whose targets are called `tool_v2.pl`, `tool`, `tool.sh`, as single file, in a directory, through a linked directory; C17's link targets renamed likewise |
+| C17-M (converted bytes cached by name, size and mtime) / C17-N (pattern list and per-file filter looked up at different times) | caught by the row-set and (already present) kept-converter clauses; added all the same: kept-converter edit histories on real files (same length, same mtime, older mtime, contents exchanged), and `SetFilter` from another goroutine while `From` is inside the filter of file k, for every k and 8 kinds of change: the payload is that of the table before or after |
+| C19-M (`lastPlainWrite` stamped with a truncated time: wall clock instead of monotonic) | missed | `vtime.Now` carries a monotonic reading and a wall clock that `StepWall` can set; the system clock is set back / forward ten minutes at every point of every 4-event string beginning with Ctrl+O (512 strings) |
+| C11-M (`-log` opened lazily, the error swallowed by slog) | caught by C20 only at first | C11: `-log` naming a file that cannot be opened - the program may refuse to start, but if it serves, what it delivers must be in a log that exists |
 
 **C12-D** moves the registration of the server's event listener into the watcher goroutine, after HTTP is being served; it needs the broker to be busy delivering an earlier event to
 another slow listener at start-up. The in-process scenario `c12BusyBroker` reproduces that set-up; its result for this change is recorded in `seeded/C12-D/check.out` (the agent's own
